@@ -677,11 +677,11 @@ def s1 : Desc := ⟨mtImage, 1, 422⟩
 
 def pushOp (id : Nat) (s : Desc) (blob : Nat) : Op :=
   { kind := .push, id := id, subject := some s, mt := "application/jose+json", blob := blob, bsize := 100,
-    msize := 600, atype := "", topType := "", layers := [], annos := [⟨"a", "1"⟩] }
+    msize := 600, atype := "", topType := "", layers := [], stray := [], annos := [⟨"a", "1"⟩] }
 
 def rawOp (id : Nat) (mt : String) (s : Desc) (atype : String) (layers : List Layer) (msize : Nat := 500) : Op :=
   { kind := .raw, id := id, subject := some s, mt := mt, blob := 0, bsize := 0, msize := msize, atype := atype,
-    topType := "", layers := layers, annos := [] }
+    topType := "", layers := layers, stray := [], annos := [] }
 
 /-- two subjects; a signature each; a notation manifest for a subject that shares only the digest
 with `s0`; another artifact type on `s0`; a hostile two-layer signature manifest on `s0`; a look-alike
@@ -759,6 +759,20 @@ example : Holds demo2 { obs2 [stepOf [goodSig0], stepOf [goodSig0]] with retaine
 
 /-- and a push that hands back a blob descriptor with another media type than was pushed -/
 example : Holds demo2 (obs2 [{ stepOf [goodSig0] with descOk := false }, stepOf [goodSig0]]) = false := by decide
+
+/-- a polyglot - an image manifest with no layer but a stray `blobs` member of the legacy format - is listed (notation type,
+exact subject), refused by a fetch through its own descriptor without a blob read; only a hand-made descriptor that
+names the OTHER manifest type makes the code read the stray list -/
+def polyglotIn : Input :=
+  { demo2 with ops := [pushOp 0 s0 1, { rawOp 1 mtImage s0 notationType [] with stray := [⟨"application/cose", 1, 100⟩] }],
+               probes := [⟨mtImage, 1, 500⟩, ⟨mtArtifact, 1, 500⟩] }
+example : ((run polyglotIn).steps.map (fun s => s.lists.map (fun l => l.sigs.map (fun g => (g.id, g.fetch.ok, g.fetch.blobRead))))) =
+    [[[(0, true, true)]], [[(0, true, true), (1, false, false)]]] ∧
+    (run polyglotIn).probes.map (fun f => (f.ok, f.blob)) = [(false, 0), (true, 1)] := by decide
+example : Holds polyglotIn (run polyglotIn) = true := by decide
+example : Holds polyglotIn { run polyglotIn with steps := (run polyglotIn).steps.map (fun s => { s with lists := s.lists.map (fun l =>
+    { l with sigs := l.sigs.map (fun g => if g.id == 1 then { g with fetch := ⟨true, 1, "application/cose", true, true⟩ } else g) }) }) } = false := by
+  decide
 
 /-- and a listing that misses a pushed signature -/
 example : Holds demo2 (obs2 [stepOf [goodSig0], stepOf []]) = false := by decide
@@ -1157,7 +1171,7 @@ def renderModel : FetchDec Layer → FetchObs
 theorem model_fetchSig_is_decideFetch (st : State) (d : Desc) :
     fetchSig st d = renderModel (decideFetch (isManifestType d.mt) (decide (d.size > capM))
       (((st.manifests.find? (·.id == d.dig)).filter (fun m => m.size == d.size)).map
-        (fun m => if d.mt == m.mt then m.layers else []))
+        (fun m => if d.mt == m.mt then m.layers else if isManifestType m.mt then m.stray else []))
       (fun l => decide (l.size > capB)) (fun l => blobSize st l.blob == some l.size)) := by
   unfold fetchSig decideFetch
   by_cases hmt : isManifestType d.mt = true
@@ -1174,7 +1188,7 @@ theorem model_fetchSig_is_decideFetch (st : State) (d : Desc) :
         by_cases hs : m.size = d.size
         · simp only [hs, bne_self_eq_false, Bool.false_eq_true, if_false, Option.filter, beq_self_eq_true, if_true,
             Option.map_some, fetchLayers]
-          cases hL : (if d.mt == m.mt then m.layers else []) with
+          cases hL : (if d.mt == m.mt then m.layers else if isManifestType m.mt then m.stray else []) with
           | nil => simp [renderModel]
           | cons l r =>
             cases r with
